@@ -4,6 +4,7 @@ import (
 	"context"
 	"encoding/json"
 	"strconv"
+	"strings"
 
 	"github.com/vektah/gqlparser/v2"
 	"github.com/vektah/gqlparser/v2/ast"
@@ -34,6 +35,8 @@ var c14Queries = []string{
 	`{ a: me { ...U } b: me { ...U } c: me { friends { ...U } } }  fragment U on User { name friends { id } }`,
 	// the same response key selected twice in one selection set (the executor merges them, the walk charges each occurrence)
 	`{ me { id } me { friends(first: 3) { name friends { id } } } }`,
+	// an interface field costed several times in one operation, with arguments that change which implementor is the most expensive
+	`{ node { a: cost(n: 1) ...C } } fragment C on Node { b: cost(n: 1000) }`,
 	`{ me { friends(first: 2) { id } friends(first: 2) { name } ... on User { friends(first: 2) { pet { __typename } } } } }`,
 }
 
@@ -79,6 +82,7 @@ var c14SymKeys = [][]string{
 	{"Query.me", "User.friends"},
 	{"Query.me", "User.friends"},
 	{"Query.me", "User.friends"},
+	{"User.cost", "Item.cost"},
 	{"User.friends", "User.pet"},
 }
 
@@ -98,7 +102,7 @@ func (e *c14ES) Exec(ctx context.Context) graphql.ResponseHandler {
 func (e *c14ES) costOf(key string) *c14Cost {
 	c, ok := e.cost[key]
 	if !ok {
-		if e.sym[key] {
+		if e.sym[strings.TrimSuffix(key, "#big")] {
 			c = &c14Cost{ok: zzsym.Bool("custom:" + key), k: zzsym.Int("cost:" + key)}
 		} else {
 			c = &c14Cost{}
@@ -109,12 +113,23 @@ func (e *c14ES) costOf(key string) *c14Cost {
 }
 func (e *c14ES) Complexity(ctx context.Context, typeName, field string, child int, args map[string]any) (int, bool) {
 	e.calls++
-	c := e.costOf(typeName + "." + field)
+	c := e.costOf(typeName + "." + field + c14Big(args))
 	if !c.ok {
 		return 0, false
 	}
 	return c.k, true
 }
+
+// c14Big: a custom cost function may depend on its arguments - here it is another arbitrary function when n >= 10
+func c14Big(args map[string]any) string {
+	if n, ok := args["n"].(int64); ok && n >= 10 {
+		return "#big"
+	}
+	return ""
+}
+
+// the variable values of the request whose operation c14Ref is costing
+var c14Vars map[string]any
 
 const c14MaxInt = int(^uint(0) >> 1)
 
@@ -143,7 +158,7 @@ func c14Ref(e *c14ES, set ast.SelectionSet) int {
 				child = c14Ref(e, s.SelectionSet)
 			}
 			one := func(typ string) int {
-				c := e.costOf(typ + "." + s.Name)
+				c := e.costOf(typ + "." + s.Name + c14Big(s.ArgumentMap(c14Vars)))
 				if c.ok && c.k >= child {
 					return c.k
 				}
@@ -176,7 +191,8 @@ func Harness_C14_walk() {
 	qi := zzsym.Choice("query", len(c14Queries))
 	e := c14NewES(qi)
 	op := c14Docs[qi].Operations[0]
-	vars := map[string]any{"n": int64(3)}
+	vars := map[string]any{"n": []int64{3, 700}[zzsym.Choice("n", 2)]}
+	c14Vars = vars
 	got := complexity.Calculate(context.Background(), e, op, vars)
 	want := c14Ref(e, op.SelectionSet)
 	zzsym.Assert(got == want, "Calculate equals the documented definition")
@@ -189,6 +205,7 @@ func Harness_C14_walk() {
 func Harness_C14_monotone() {
 	p := c14Mono[zzsym.Choice("pair", len(c14Mono))]
 	e := c14NewES(p[1])
+	c14Vars = nil
 	small := complexity.Calculate(context.Background(), e, c14Docs[p[0]].Operations[0], nil)
 	large := complexity.Calculate(context.Background(), e, c14Docs[p[1]].Operations[0], nil)
 	zzsym.Assert(large >= small, "adding selections never decreases complexity")
@@ -204,6 +221,7 @@ func Harness_C14_gate() {
 	c := &ComplexityLimit{Func: func(ctx context.Context, opCtx *graphql.OperationContext) int { return limit }}
 	zzsym.Assert(c.Validate(e) == nil, "Validate accepts a limit func")
 	opCtx := &graphql.OperationContext{Doc: c14Docs[qi], Variables: map[string]any{"n": int64(1)}}
+	c14Vars = opCtx.Variables
 	gerr := c.MutateOperationContext(context.Background(), opCtx)
 	want := c14Ref(e, c14Docs[qi].Operations[0].SelectionSet)
 	zzsym.Assert((gerr != nil) == (want > limit), "rejected iff complexity exceeds the limit")
